@@ -27,11 +27,11 @@ type opRecord struct {
 }
 
 type crashRun struct {
-	t    *Trace
-	cfg  Config
-	log  []sim.Mutation
-	ops  []opRecord // indexed by op number (0 = initial open)
-	ackAt []int     // log index of each op's ack marker (-1 if none)
+	t     *Trace
+	cfg   Config
+	log   []sim.Mutation
+	ops   []opRecord // indexed by op number (0 = initial open)
+	ackAt []int      // log index of each op's ack marker (-1 if none)
 	final []byte
 }
 
